@@ -14,8 +14,10 @@ SPEC = {
 MANIFEST = {
     "text": ("The stream state machine of StreamsState (both halves, map presence, Free/Open/None slots, counters, event queue) "
              "is modelled in Coq (Model/StreamSM.v over Model/FlowRecv.v) and related to a short specification (Model/StreamSpec.v: "
-             "RFC 9000 section 3 state tables extended with the result of every application operation). Theorems in Props/C11.v are "
-             "proved for all states / op sequences. The tie to the Rust code is differential correspondence through the stream_sm hook "
+             "RFC 9000 section 3 state tables extended with the result of every application operation). Proved for all op sequences: "
+             "Finished is emitted at most once per stream and never for a reset stream (C11_finished_once), the window of permitted "
+             "remote streams is always full and one stream_freed call credits exactly one stream iff both halves are gone "
+             "(C11_concurrency_accounting, C11_stream_credit_exact); per state: stop / received_reset results equal the spec's. The tie to the Rust code is differential correspondence through the stream_sm hook "
              "(all probes compared verbatim) and the specification itself is the oracle: run on the op sequence it must predict every "
              "API result, event, counter and half presence reported by the implementation. Defect F2 (stream dropped on "
              "IllegalOrderedRead) is repaired by a fix: commit; its witness is kept as a _refuted theorem about the pre-repair model."),
